@@ -116,11 +116,11 @@ Definition bias_label (b : bflags) : list col :=
   | BHarmonic | BLinear => base_label b ++ cm_label b ++ km_label b
   | BWalls => base_label b ++ km_label b
   | BAbmd => match bf_vars b with v :: _ => [CRef (bf_id b) v] | [] => [] end
-  | BAlb =>   (* colvarbias_alb::write_traj_label: energy, coupling, gradient, centers *)
+  | BAlb =>   (* colvarbias_alb::write_traj_label: energy, coupling, centers, gradient *)
       base_label b ++
       (if bf_coupling b then map (CCoupling (bf_id b)) (bf_vars b) else []) ++
-      (if bf_grad b then map (CGrad (bf_id b)) (bf_vars b) else []) ++
-      (if bf_centers b then map (CCenter (bf_id b)) (bf_vars b) else [])
+      (if bf_centers b then map (CCenter (bf_id b)) (bf_vars b) else []) ++
+      (if bf_grad b then map (CGrad (bf_id b)) (bf_vars b) else [])
   end.
 
 Definition bias_data (b : bflags) : list src :=
@@ -197,7 +197,7 @@ Definition traj_event (s : tstate) (e : tevent) : tstate * list tline :=
   match e with
   | TCalc it => traj_calc s it
   | TConfig c => (mkTS (t_freq s) c true (t_it_restart s), [])
-  | TScriptSet c => (mkTS (t_freq s) c (t_labels s) (t_it_restart s), [])   (* no config_changed() *)
+  | TScriptSet c => (mkTS (t_freq s) c true (t_it_restart s), [])   (* colvarscript::proc_features: config_changed() *)
   | TFreq f => (mkTS f (t_cfg s) (t_labels s) (t_it_restart s), [])
   | TRestart it0 => (mkTS (t_freq s) (t_cfg s) (t_labels s) it0, [])
   end.
@@ -245,20 +245,22 @@ Section Analysis.
   (* calc_colvar_properties (f_cv_fdiff_velocity), scalar non-periodic variable:
      fdiff_velocity(xold, xnew) = (dt > 0 ? 1/dt : 1) * 0.5 * dist2_lgrad(xnew, xold), dist2_lgrad = 2 (xnew - xold);
      then end_of_step: x_old = x *)
-  Definition vel_step (dt : T) (s : vstate) (step_rel : nat) (x : T) : vstate :=
+  Definition vel_step (dt : T) (s : vstate) (prev : option nat) (step_rel : nat) (x : T) : vstate :=
     match step_rel with
     | 0%nat => mkVS x (n0 O) (vs_vrep s)
     | S _ =>
-        let f := if nltb O (n0 O) dt then ndiv O (n1 O) dt else n1 O in
-        let v := nmul O (nmul O f (nhalf O)) (nmul O (nofZ O 2) (nsub O x (vs_xold s))) in
-        mkVS x v v
+        if after_prev prev step_rel then
+          let f := if nltb O (n0 O) dt then ndiv O (n1 O) dt else n1 O in
+          let v := nmul O (nmul O f (nhalf O)) (nmul O (nofZ O 2) (nsub O x (vs_xold s))) in
+          mkVS x v v
+        else mkVS x (vs_vfdiff s) (vs_vrep s)     (* repeated step: velocity kept; end_of_step: x_old = x *)
     end.
 
   (* values printed under "v_<name>" over a history of (step_relative, x) *)
-  Fixpoint vel_run (dt : T) (s : vstate) (h : list (nat * T)) : list T :=
+  Fixpoint vel_run (dt : T) (s : vstate) (prev : option nat) (h : list (nat * T)) : list T :=
     match h with
     | [] => []
-    | (t, x) :: r => let s1 := vel_step dt s t x in vs_vrep s1 :: vel_run dt s1 r
+    | (t, x) :: r => let s1 := vel_step dt s prev t x in vs_vrep s1 :: vel_run dt s1 (Some t) r
     end.
 
   (* ---- C. running average --------------------------------------------------------------------- *)
@@ -272,28 +274,29 @@ Section Analysis.
      dist2(a, b) = (a - b)^2 *)
   Definition d2 (a b : T) : T := let d := nsub O a b in nmul O d d.
 
-  Definition runave_step (L stride : nat) (s : rstate) (prev : option nat) (step_rel : nat) (x : T)
+  (* it0 = it_restart: the line carries the absolute step it0 + step_rel *)
+  Definition runave_step (L stride it0 : nat) (s : rstate) (prev : option nat) (step_rel : nat) (x : T)
     : rstate * option rline :=
     if negb (r_init s) then (mkRS true [], None)
     else if (step_rel mod stride =? 0)%nat && after_prev prev step_rel then
       let out :=
         if (L - 1 <=? length (r_hist s))%nat then
           let av := nmul O (sumT (r_hist s) x) (ndiv O (n1 O) (ofnat L)) in
-          let var0 := fold_left (fun acc xi => nadd O acc (d2 x xi)) (r_hist s) (nadd O (n0 O) (d2 x av)) in
+          let var0 := fold_left (fun acc xi => nadd O acc (d2 xi av)) (r_hist s) (nadd O (n0 O) (d2 x av)) in
           let var := nmul O var0 (ndiv O (n1 O) (ofnat (L - 1))) in
-          Some (step_rel, av, var, nsqrt O var)
+          Some ((it0 + step_rel)%nat, av, var, nsqrt O var)
         else None in
-      (mkRS true (firstn L (x :: r_hist s)), out)
+      (mkRS true (firstn (L - 1) (x :: r_hist s)), out)
     else (s, None).
 
   (* a history: the values of step_relative at successive calls of calc() and the variable's value;
      colvar::end_of_step sets prev_timestep after each call *)
-  Fixpoint runave_run (L stride : nat) (s : rstate) (prev : option nat) (h : list (nat * T)) : list rline :=
+  Fixpoint runave_run (L stride it0 : nat) (s : rstate) (prev : option nat) (h : list (nat * T)) : list rline :=
     match h with
     | [] => []
     | (t, x) :: r =>
-        let '(s1, o) := runave_step L stride s prev t x in
-        (match o with Some l => [l] | None => [] end) ++ runave_run L stride s1 (Some t) r
+        let '(s1, o) := runave_step L stride it0 s prev t x in
+        (match o with Some l => [l] | None => [] end) ++ runave_run L stride it0 s1 (Some t) r
     end.
 
   (* ---- D. time-correlation function ----------------------------------------------------------- *)
@@ -327,10 +330,10 @@ Section Analysis.
         end
       else (acf, n).
 
-    (* colvar::calc_acf.  self = this variable's quantity (x or its velocity), other = the quantity of
-       the variable named by corrFuncWithColvar (the same variable by default);
-       lag0 self other = the term the code adds to acf[0]; stored = what is pushed on the history *)
-    Definition acf_step (len stride off : nat) (lag0 : V -> V -> T) (s : astate) (prev : option nat)
+    (* colvar::calc_acf.  self = this variable's quantity (value() or velocity()), other = the quantity of
+       the variable named by corrFuncWithColvar (the same variable by default).  The term added to acf[0]
+       is pair self other; this variable's quantity is pushed on the history *)
+    Definition acf_step (len stride off : nat) (s : astate) (prev : option nat)
                (step_rel : nat) (self other : V) : astate :=
       match a_hist s with
       | [] =>
@@ -340,18 +343,18 @@ Section Analysis.
       | _ :: _ =>
           if after_prev prev step_rel then
             let l := nth (a_ptr s) (a_hist s) [] in
-            let '(acf1, n1) := acf_accumulate len off l (lag0 self other) other (a_acf s) (a_n s) in
-            let l1 := firstn (len + off) (other :: l) in
+            let '(acf1, n1) := acf_accumulate len off l (pair self other) other (a_acf s) (a_n s) in
+            let l1 := firstn (len + off) (self :: l) in
             let p1 := if (S (a_ptr s) <? length (a_hist s))%nat then S (a_ptr s) else 0%nat in
             mkAS (upd_nth (a_ptr s) (a_hist s) l1) p1 acf1 n1
           else s
       end.
 
-    Fixpoint acf_run (len stride off : nat) (lag0 : V -> V -> T) (s : astate) (prev : option nat)
+    Fixpoint acf_run (len stride off : nat) (s : astate) (prev : option nat)
              (h : list (nat * (V * V))) : astate :=
       match h with
       | [] => s
-      | (t, (self, other)) :: r => acf_run len stride off lag0 (acf_step len stride off lag0 s prev t self other) (Some t) r
+      | (t, (self, other)) :: r => acf_run len stride off (acf_step len stride off s prev t self other) (Some t) r
       end.
 
     (* colvar::write_acf: rows (lag in steps, value) *)
@@ -368,7 +371,12 @@ Section Analysis.
       | S _ =>
           let nf := ofnat (a_n s) in
           let norm := ndiv O (hd (n0 O) (a_acf s)) nf in
-          acf_rows normalize stride norm nf off (a_acf s)
+          match a_acf s with
+          | [] => []
+          | a :: r =>      (* the first row is the zero-lag value; the next ones are lags (off+1) stride, ... *)
+              (0%nat, if normalize then ndiv O a (nmul O norm nf) else ndiv O a nf)
+                :: acf_rows normalize stride norm nf (S off) r
+          end
       end.
   End Acf.
 
@@ -387,13 +395,8 @@ Section Analysis.
   Inductive acf_type := AcfVel | AcfCoor | AcfP2.
   Definition acf_pair (ty : acf_type) : list T -> list T -> T :=
     match ty with AcfP2 => p2leg | _ => vdot end.
-  (* the term added to acf[0]: calc_coor_acf uses this variable's x, calc_vel_acf the other variable's
-     velocity, calc_p2coor_acf the constant P2(1) = 1 *)
-  Definition acf_lag0 (ty : acf_type) (self other : list T) : T :=
-    match ty with AcfCoor => vnorm2 self | AcfVel => vnorm2 other | AcfP2 => n1 O end.
-
   Definition acf_model (ty : acf_type) (normalize : bool) (len stride off : nat)
              (h : list (nat * (list T * list T))) : list (nat * T) * nat :=
-    let s := acf_run (acf_pair ty) len stride off (acf_lag0 ty) a0 None h in
+    let s := acf_run (acf_pair ty) len stride off a0 None h in
     (acf_write normalize stride off s, a_n s).
 End Analysis.
